@@ -102,6 +102,12 @@ B_TEXTS += ['```json\n{"path": "src/main.c", ...}\n```\n',
             '> quote\n\n1. item\n* * *\n| a | b |\n|---|---|\n']
 B_METAS = [{'a': 'x'}, {'path': 'a/b', 'n': [1, {'k': None}]},
            {'é': 'ü', 's': 'two\nlines'}, {'#x': '#y', 't': True}]
+# strings that need JSON escapes (quotes, backslashes incl. a trailing one,
+# control characters), followed by further strings
+B_METAS += [{'op': 'modify', 'path': 'src\\lib\\', 'revision': {'new': 'def',
+                                                             'old': 'abc'}},
+            {'a': 'q"uote', 'b': 'c:\\dir\\', 'bb': '\\\\', 'c': '\\"',
+             'd': 'x\ny\tz', 'e': '\u2028\x7f\x00', 'end\\': 'z'}]
 B_DIFFS = [b'a\n', b'--- a\n+++ b\n@@ -1 +1,2 @@\n-x\n+y\n+z\n',
            b'delta 14\nxyz\n', b'literal 5\nabc\n', b'...\n', b'a\r\nb\r\n',
            b'Binary files differ\n', 'é\n'.encode('utf-8'), b'#x\n',
